@@ -8,7 +8,7 @@ hand-reviewed list with a verdict per site; `Props/C08.lean` compares them.  Cor
 namespace PV.MapRange
 
 /-- what the loop body feeds -/
-inductive SinkKind | append | write | concat | floatsum | pick
+inductive SinkKind | append | write | concat | floatsum | pick | delete
   deriving DecidableEq, Repr
 
 /-- One site.  Types only — no local names, no line numbers, no callee names. -/
